@@ -270,7 +270,9 @@ impl Rig {
             c.max_connections_per_ip = Some(1);
             reqs.push(("cluster l".into(), RequestType::AddCluster(c)));
             add_front(&mut reqs, Some(cl.clone()), "iplimit", None);
-            let b4 = Backend::start("bk4", h2back, BkMode::Serve, scripts.clone(), true, log.clone(), peer_closed.clone())?;
+            // serves the connection that holds the per-IP slot: always framed, so that the connection stays alive
+            let framed: Arc<Vec<ReqSpec>> = Arc::new(scn.reqs.iter().map(|r| ReqSpec { framing: "cl".into(), fault: "none".into(), at: "none".into(), off: None, ..r.clone() }).collect());
+            let b4 = Backend::start("bk4", h2back, BkMode::Serve, framed, true, log.clone(), peer_closed.clone())?;
             reqs.push(("backend 4".into(), RequestType::AddBackend(Worker::backend(&cl, "b4", b4.addr))));
             backends.push(b4);
         }
